@@ -649,6 +649,173 @@ pub fn case_strategy() -> impl Strategy<Value = Case> {
         })
 }
 
+/// A snapshot or screen-file load that fails part-way (dead asset from a generated call on, or an
+/// SZX file cut short inside a later chunk): whatever bytes reached screen memory got there by the
+/// loader, and the frames after it must show them.
+#[derive(Clone, Debug, Serialize, Deserialize)]
+pub struct FailCase {
+    pub machine: Machine,
+    pub shadow: bool,
+    /// 0 SNA, 1 SZX stored pages, 2 SZX zlib pages, 3 SCR, 4 SZX cut short (no asset fault)
+    pub format: u8,
+    pub kind: u8,
+    pub seed: u64,
+    /// the asset fails at this call (reads and seeks counted together) and stays dead
+    pub at_call: u16,
+    /// index into the bytes-per-read table [unlimited, 1000, 4096, 16384]
+    pub chunk: u8,
+    pub frames: u8,
+}
+
+fn failing_file(c: &FailCase, bytes: &[u8]) -> Vec<u8> {
+    let machine = c.machine;
+    let latch_shadow = if c.shadow { 0x08 } else { 0x00 };
+    if c.format == 3 {
+        return bytes.to_vec();
+    }
+    let nb = machine.ram_banks() as usize;
+    let mut ram: Vec<Vec<u8>> = (0..nb).map(|_| vec![0u8; mach::PAGE]).collect();
+    let vb = visible_bank(machine, c.shadow) as usize;
+    ram[vb][..6912].copy_from_slice(bytes);
+    let code_bank = if machine == Machine::K48 { 1 } else { 2 };
+    ram[code_bank][0..3].copy_from_slice(&[0xF3, 0x18, 0xFE]);
+    let mut regs = RegFile { pc: LOOP, sp: 0xBF00, im: 1, ..Default::default() };
+    if c.format == 0 {
+        if machine == Machine::K48 {
+            regs.sp = 0xBEFE;
+            ram[1][0x3EFE] = LOOP as u8;
+            ram[1][0x3EFF] = (LOOP >> 8) as u8;
+            sna::write_48k(&sna::SnaState { regs, border: 1, latch: 0, is_128k: false }, &ram)
+        } else {
+            sna::write_128k(&sna::SnaState { regs, border: 1, latch: latch_shadow, is_128k: true }, &ram)
+        }
+    } else {
+        let st = szx::SzxState {
+            machine_id: if machine == Machine::K48 { 1 } else { 2 },
+            regs,
+            memptr: 0,
+            cycles: 0,
+            halted: false,
+            ei_last: false,
+            f_set: false,
+            border: 1,
+            latch: latch_shadow,
+            fe: 1,
+            ay: None,
+            kempston_joystick: None,
+            mouse: None,
+        };
+        let mut layout = szx::Layout::default();
+        if c.format == 2 {
+            layout.compress_pages = vec![true; 8];
+        }
+        // screen pages early in the file in half of the cases, so that a late failure finds them applied
+        layout.ramp_page_order_reversed = c.seed & 1 == 0;
+        let mut f = szx::write(&st, &ram, &layout);
+        if c.format == 4 {
+            let cut = 1 + (c.seed >> 8) as usize % 12_000.min(f.len() - 64);
+            f.truncate(f.len() - cut);
+        }
+        f
+    }
+}
+
+pub fn check_failing_load(c: &FailCase, rec: &mut Rec) -> Result<(), String> {
+    let machine = c.machine;
+    let mut e = mk_emu(&EmuOpts::new(machine));
+    let mut mm = MemModel::new(machine, mach::rom_images(machine));
+    let bytes = content(c.kind, c.seed);
+    let other = content(c.kind.wrapping_add(1), c.seed ^ 0x5555);
+    let screen_banks: Vec<u8> = if machine == Machine::K48 { vec![0] } else { vec![5, 7] };
+    for b in &screen_banks {
+        e.verif_ram_page_mut(*b)[..6912].copy_from_slice(&other);
+    }
+    e.verif_refresh_memory_dependent_devices();
+    mach::poke_bytes(&mut e, &mut mm, LOOP, &[0xF3, 0x18, 0xFE]);
+    mach::set_regs(&mut e, &RegFile { pc: LOOP, sp: 0xBF00, ..Default::default() });
+    if machine == Machine::K128 {
+        e.verif_set_paging(if c.shadow { 0x08 } else { 0x00 });
+    }
+    mach::run_frames(&mut e, 2)?;
+    let file = failing_file(c, &bytes);
+    let res = if c.format == 4 {
+        let asset = MemAsset::chunked(file, [0usize, 1000, 4096, 16384][(c.chunk & 3) as usize]);
+        e.load_snapshot(Snapshot::Szx(asset)).map_err(|x| format!("{:?}", x))
+    } else {
+        let mut asset = crate::host::FaultAsset::new(file, c.at_call as usize, crate::host::Fault::Err, true);
+        asset.inner.chunk = [0usize, 1000, 4096, 16384][(c.chunk & 3) as usize];
+        match c.format {
+            0 => e.load_snapshot(Snapshot::Sna(asset)).map_err(|x| format!("{:?}", x)),
+            3 => e.load_screen(Screen::Scr(asset)).map_err(|x| format!("{:?}", x)),
+            _ => e.load_snapshot(Snapshot::Szx(asset)).map_err(|x| format!("{:?}", x)),
+        }
+    };
+    // whatever the outcome, the program from here on is DI; JR $ in a bank no loader output is judged in
+    mach::poke_bytes(&mut e, &mut mm, LOOP, &[0xF3, 0x18, 0xFE]);
+    mach::set_regs(&mut e, &RegFile { pc: LOOP, sp: 0xBF00, ..Default::default() });
+    let changed = screen_banks.iter().any(|b| e.verif_ram_page(*b)[..6912] != other[..]);
+    let vb = if machine == Machine::K48 { 0 } else if e.verif_paging().0 & 8 != 0 { 7 } else { 5 };
+    let vis: Vec<u8> = e.verif_ram_page(vb)[..6912].to_vec();
+    mach::run_frames(&mut e, 1)?;
+    let (d0, d1) = (decode(&vis, false), decode(&vis, true));
+    for k in 0..c.frames {
+        mach::run_frames(&mut e, 1)?;
+        rec.eval();
+        if e.verif_ram_page(vb)[..6912] != vis[..] {
+            return Err("harness: screen memory changed during the idle frames".into());
+        }
+        let px = &e.screen_buffer().px;
+        if px[..] != d0[..] && px[..] != d1[..] {
+            let pos = px.iter().zip(d0.iter()).position(|(a, b)| a != b).unwrap();
+            return Err(format!(
+                "load (format {}, asset dead from call {}) returned {:?}; frame {} after it: canvas pixel ({}, {}) shows {:#04x}; decode of the ULA-visible bank {} gives {:#04x}; memory was unchanged for the whole frame",
+                c.format, c.at_call, res, k, pos % 256, pos / 256, px[pos], vb, d0[pos]
+            ));
+        }
+    }
+    if machine == Machine::K128 {
+        let (latch, _, _) = e.verif_paging();
+        e.verif_set_paging((latch ^ 0x08) & !0x20);
+        let ob = if (latch ^ 0x08) & 8 != 0 { 7 } else { 5 };
+        let other_mem: Vec<u8> = e.verif_ram_page(ob)[..6912].to_vec();
+        mach::run_frames(&mut e, 2)?;
+        rec.eval();
+        let (o0, o1) = (decode(&other_mem, false), decode(&other_mem, true));
+        let px = &e.screen_buffer().px;
+        if px[..] != o0[..] && px[..] != o1[..] {
+            let pos = px.iter().zip(o0.iter()).position(|(a, b)| a != b).unwrap();
+            return Err(format!(
+                "load (format {}, asset dead from call {}) returned {:?}; after switching the display to bank {} (memory untouched) canvas pixel ({}, {}) shows {:#04x}; the decode of bank {} gives {:#04x}",
+                c.format, c.at_call, res, ob, pos % 256, pos / 256, px[pos], ob, o0[pos]
+            ));
+        }
+    }
+    rec.class(&format!("failing-load:format-{}", c.format));
+    rec.class(match (&res, changed) {
+        (Ok(_), _) => "failing-load:completed-before-the-fault",
+        (Err(_), false) => "failing-load:failed-before-screen-memory-changed",
+        (Err(_), true) => "failing-load:failed-after-screen-memory-changed",
+    });
+    if res.is_err() && changed {
+        rec.nontrivial(fnv(format!("{:?}", c).as_bytes()));
+    }
+    Ok(())
+}
+
+pub fn fail_strategy() -> impl Strategy<Value = FailCase> {
+    (
+        prop_oneof![Just(Machine::K48), Just(Machine::K128)],
+        any::<bool>(),
+        0u8..5,
+        0u8..5,
+        any::<u64>(),
+        prop_oneof![0u16..24, 0u16..200],
+        0u8..4,
+        1u8..4,
+    )
+        .prop_map(|(machine, shadow, format, kind, seed, at_call, chunk, frames)| FailCase { machine, shadow: shadow && machine == Machine::K128, format, kind, seed, at_call, chunk, frames })
+}
+
 pub fn beam_strategy() -> impl Strategy<Value = BeamCase> {
     (
         prop_oneof![Just(Machine::K48), Just(Machine::K128)],
@@ -666,18 +833,20 @@ pub fn run(run: &mut Run) {
     let t = run.tier;
     run.explore("paths", t.pick(6_000, 120_000), case_strategy, check);
     run.explore("beam-relative", t.pick(12_000, 300_000), beam_strategy, check_beam);
+    run.explore("failing-load", t.pick(3_000, 60_000), fail_strategy, check_failing_load);
 }
 
 pub fn replay(run: &mut Run, phase: &str, case: &serde_json::Value) -> Result<(), String> {
     match phase {
         "paths" => run.replay_one::<Case, _>(phase, case, check),
         "beam-relative" => run.replay_one::<BeamCase, _>(phase, case, check_beam),
+        "failing-load" => run.replay_one::<FailCase, _>(phase, case, check_failing_load),
         _ => Err(format!("unknown phase {}", phase)),
     }
 }
 
 pub const LEVEL: &str = "exploration";
-pub const RULE: &str = "paths: 6912-byte screen contents (uniform; single bits with every attribute value; per-third address-bit patterns; BRIGHT+FLASH everywhere; sparse) delivered by one of {CPU LDIR through 0x4000, CPU LDIR through 0xC000 with bank 5/7 paged, execute_poke through 0x4000 or through 0xC000 with bank 5/7 paged, SCR load, SNA load, SZX load with stored or zlib pages, ROM LD-BYTES served by fast load to 0x4000 or to 0xC000 with bank 5/7 paged} on 48K/128K with either 128K screen bank displayed, after different content had been on screen; then 1..40 frames with the CPU in DI;JR $ — every delivered canvas must equal the independent standard decode of the bank the ULA displays, with one FLASH phase per frame that toggles in runs of exactly 16 frames (also across a reload of the same SCR file in the middle of a long run); on the 128K the other screen bank is then shown by flipping the screen-select bit, and after a generated history of 1..4 real paging-port writes (lock values included) the bank selected by the last accepted write must be displayed; on the 48K a SNA snapshot taken with SP inside the display file (the format parks PC below SP and restores the bytes) must leave the picture as it was. beam-relative: one byte written by LD (HL),A (through 0x4000, or on the 128K through 0xC000 into the displayed bank 7) at a chosen T >= 64 T before (after) the ULA reaches it (on the 128K optionally followed by a paging write of the value already latched; in a quarter of the cases the byte is poked by the host with the machine stopped at that moment instead) must (must not) appear in the frame in progress and must appear in the next. non-trivial = content with >= 64 distinct byte values delivered by a path other than plain LDIR through 0x4000 (beam phase: every case); distinct = hash of the case";
+pub const RULE: &str = "paths: 6912-byte screen contents (uniform; single bits with every attribute value; per-third address-bit patterns; BRIGHT+FLASH everywhere; sparse) delivered by one of {CPU LDIR through 0x4000, CPU LDIR through 0xC000 with bank 5/7 paged, execute_poke through 0x4000 or through 0xC000 with bank 5/7 paged, SCR load, SNA load, SZX load with stored or zlib pages, ROM LD-BYTES served by fast load to 0x4000 or to 0xC000 with bank 5/7 paged} on 48K/128K with either 128K screen bank displayed, after different content had been on screen; then 1..40 frames with the CPU in DI;JR $ — every delivered canvas must equal the independent standard decode of the bank the ULA displays, with one FLASH phase per frame that toggles in runs of exactly 16 frames (also across a reload of the same SCR file in the middle of a long run); on the 128K the other screen bank is then shown by flipping the screen-select bit, and after a generated history of 1..4 real paging-port writes (lock values included) the bank selected by the last accepted write must be displayed; on the 48K a SNA snapshot taken with SP inside the display file (the format parks PC below SP and restores the bytes) must leave the picture as it was. beam-relative: one byte written by LD (HL),A (through 0x4000, or on the 128K through 0xC000 into the displayed bank 7) at a chosen T >= 64 T before (after) the ULA reaches it (on the 128K optionally followed by a paging write of the value already latched; in a quarter of the cases the byte is poked by the host with the machine stopped at that moment instead) must (must not) appear in the frame in progress and must appear in the next. failing-load: a SNA, SZX (stored or zlib pages, screen pages early or late in the file) or SCR file offered through an asset that dies at a generated call (reads of at most 1000/4096/16384 bytes or unlimited), or an SZX file cut short inside a later chunk, over a machine showing other content; whatever the load returns, the following 1..3 frames (CPU in DI;JR $) must show the decode of the screen memory as the loader left it, for the displayed bank and on the 128K for the other bank after a flip. non-trivial = content with >= 64 distinct byte values delivered by a path other than plain LDIR through 0x4000 (beam phase: every case; failing-load: the load returned Err after screen memory had changed); distinct = hash of the case";
 pub const ASSUMPTIONS: &[&str] = &[
     "SCR, SNA and SZX files are delivered all at once or in short reads (1, 33/100, nearly-whole) depending on the case seed",
     "decoder is written from the formula in the property; canvas read from the harness FrameBuffer after each completed frame",
